@@ -1628,9 +1628,28 @@ func dependsOnDecoder(v ssa.Value, seen map[ssa.Value]bool, depth int) bool {
 		n := calleeOrDyn(cc)
 		return strings.Contains(n, "golang.org/x/text/") || strings.Contains(n, "golang.org/x/net/html/charset")
 	}
+	if _, isExtract := v.(*ssa.Extract); isExtract {
+		if rs := helperResults(v); len(rs) > 0 {
+			for _, r := range rs {
+				if !dependsOnDecoder(r, seen, depth+1) {
+					return false
+				}
+			}
+			return true
+		}
+	}
 	switch x := v.(type) {
 	case *ssa.Call:
 		if isDecoderCall(x.Common()) {
+			return true
+		}
+		// a decoding helper of this repository: every value it returns is decoder output
+		if rs := helperResults(x); len(rs) > 0 {
+			for _, r := range rs {
+				if !dependsOnDecoder(r, seen, depth+1) {
+					return false
+				}
+			}
 			return true
 		}
 		if x.Call.IsInvoke() {
